@@ -30,6 +30,16 @@ func verifDoc2() (*openapi2.T, map[string]bool) {
 	op := &openapi2.Operation{OperationID: "getItem", Responses: map[string]*openapi2.Response{
 		"200": {Description: "ok", Schema: &openapi2.SchemaRef{Ref: "#/definitions/Item"}},
 	}}
+	produces := "application/json"
+	switch verifChoose("produces", 3) {
+	case 1:
+		op.Produces = []string{"text/plain"}
+		produces = "text/plain"
+	case 2:
+		doc.Produces = []string{"text/plain"}
+		produces = "text/plain"
+	}
+	feat["produces:"+produces] = true
 	op.Parameters = append(op.Parameters, &openapi2.Parameter{Name: "id", In: "path", Required: true, Type: &openapi3.Types{"integer"}, Maximum: &maxf})
 	if pick("query") {
 		op.Parameters = append(op.Parameters, &openapi2.Parameter{Name: "q", In: "query", Required: verifNondetBool("qRequired"), Type: &openapi3.Types{"string"}, MinLength: minLen})
@@ -184,7 +194,13 @@ func verifH_C17_document() {
 		verifAssert(r != nil && r.Ref == "#/components/responses/NotFound" && c != nil && c.Value != nil && c.Value.Headers["X-R"] != nil && *c.Value.Headers["X-R"].Value.Schema.Value.Max == *doc2.Responses["NotFound"].Headers["X-R"].Maximum, "C17 document: shared responses keep description, headers and are referenced at their v3 location")
 	}
 	r200 := pi.Get.Responses.Value("200")
-	verifAssert(r200 != nil && r200.Value != nil && *r200.Value.Description == "ok" && r200.Value.Content["application/json"] != nil && r200.Value.Content["application/json"].Schema.Ref == "#/components/schemas/Item", "C17 document: response keeps description and schema reference")
+	produces := "application/json"
+	if feat["produces:text/plain"] {
+		produces = "text/plain"
+	}
+	verifKnown("C17-produces-ignored", produces != "application/json")
+	verifAssert(r200 != nil && r200.Value != nil && *r200.Value.Description == "ok" && r200.Value.Content[produces] != nil && r200.Value.Content[produces].Schema.Ref == "#/components/schemas/Item", "C17 document: response keeps description and schema reference under the media type the operation produces")
+	verifKnown("C17-produces-ignored", false)
 	item := doc3.Components.Schemas["Item"]
 	verifAssert(item != nil && item.Value != nil && item.Value.Properties["name"].Value.MinLength == doc2.Definitions["Item"].Value.Properties["name"].Value.MinLength, "C17 document: definitions become component schemas with the same constraints")
 	serversOK := len(doc3.Servers) == len(doc2.Schemes)
